@@ -248,6 +248,12 @@ func runC10(res *Result, d *Driver, tier string, seed uint64) {
 				r := env.Execve(ctx, param)
 				cancel()
 				apiOk = r.Status != runner.StatusRunnerError
+				// the answer belongs to THIS call: a request that can run is not failed with the parameters of an earlier
+				// one, and a request that must fail is not answered with the result of an earlier program
+				if want := outcome == "runs"; want != apiOk {
+					res.Mismatch(Mismatch{Kind: "oracle", What: "the answer of an Execve belongs to that call (C10_answer_belongs)", Input: fmt.Sprintf("h%d s%d Execve(%v, rlimits=%v, syncAfter=%v) expected class %s", h, step, param.Args, param.RLimits, syncAfter, outcome),
+						Impl: fmt.Sprintf("status=%v exit=%d error=%q", r.Status, r.ExitStatus, r.Error), Oracle: "violates"})
+				}
 				line = fmt.Sprintf("execve %s %s", b01(syncAfter), outcome)
 				desc = fmt.Sprintf("Execve(%v, syncAfter=%v, %s) -> %v %q", param.Args, syncAfter, outcome, r.Status, r.Error)
 			}
@@ -290,4 +296,92 @@ func runC10(res *Result, d *Driver, tier string, seed uint64) {
 		env.Close()
 		cl.w.Close()
 	}
+	// ---- after the transport is lost every later call fails promptly ----
+	nLoss := 4
+	if tier == "thorough" {
+		nLoss = 40
+	}
+	for i := 0; i < nLoss; i++ {
+		before := childPids()
+		env, err := newEnv(container.Builder{})
+		if err != nil {
+			fatal("container: %v", err)
+		}
+		how := []string{"destroy", "init-killed"}[i%2]
+		if how == "destroy" {
+			env.Destroy()
+		} else {
+			for p := range childPids() {
+				if !before[p] {
+					syscall.Kill(p, syscall.SIGKILL)
+				}
+			}
+			time.Sleep(20 * time.Millisecond)
+		}
+		nCalls := 3 + rng.Intn(6)
+		var hist []string
+		for k := 0; k < nCalls; k++ {
+			op := []string{"ping", "open", "delete", "reset", "symlink", "execve"}[rng.Intn(6)]
+			hist = append(hist, op)
+			done := make(chan string, 1)
+			go func() {
+				switch op {
+				case "ping":
+					if env.Ping() == nil {
+						done <- "Ping succeeded"
+						return
+					}
+				case "open":
+					if _, err := env.Open([]container.OpenCmd{{Path: "/w/a", Flag: os.O_CREATE | os.O_RDWR, Perm: 0644}}); err == nil {
+						done <- "Open succeeded"
+						return
+					}
+				case "delete":
+					if env.Delete("/w/a") == nil {
+						done <- "Delete succeeded"
+						return
+					}
+				case "reset":
+					if env.Reset() == nil {
+						done <- "Reset succeeded"
+						return
+					}
+				case "symlink":
+					if _, err := env.Symlink([]container.SymbolicLink{{LinkPath: "/w/l", Target: "/w/a"}}); err == nil {
+						done <- "Symlink succeeded"
+						return
+					}
+				default:
+					r := env.Execve(context.Background(), container.ExecveParam{Args: []string{"/bin/true"}, Env: []string{"PATH=/bin"}})
+					if r.Status != runner.StatusRunnerError {
+						done <- "Execve answered " + r.Status.String()
+						return
+					}
+				}
+				done <- ""
+			}()
+			key := fmt.Sprintf("loss-%d %s then %s", i, how, strings.Join(hist, ","))
+			res.Case(key, true, "after-loss-"+op)
+			res.Traces++
+			var bad string
+			select {
+			case bad = <-done:
+			case <-time.After(10 * time.Second):
+				bad = "call number " + itoa(k+1) + " (" + op + ") after the loss did not return within 10 s"
+			}
+			if bad != "" {
+				res.Mismatch(Mismatch{Kind: "oracle", What: "after loss of the transport every later call fails promptly (C10)", Input: key, Impl: bad, Oracle: "violates"})
+				break
+			}
+		}
+		dd := make(chan struct{})
+		go func() { env.Destroy(); close(dd) }()
+		select {
+		case <-dd:
+		case <-time.After(10 * time.Second):
+			res.Mismatch(Mismatch{Kind: "oracle", What: "Destroy after loss of the transport returns (C10)", Input: fmt.Sprintf("loss-%d %s then %s then Destroy", i, how, strings.Join(hist, ",")), Impl: "Destroy did not return within 10 s", Oracle: "violates"})
+		}
+		os.RemoveAll(env.root)
+	}
 }
+
